@@ -286,7 +286,32 @@ def _define():
                 for col in ("reserveLiquidationThreshold", "baseLTVasCollateral"):
                     rp.loc["WETH", col] = rp.loc["WETH", col] * type(rp.loc["WETH", col])("0.7")
 
-    return {"pricewriter": PriceWriter, "ocap": OptCapBuyer, "lender": Lender, "riskeditor": RiskEditor, "sig2": Signal, "sig3": Signal3, "buyer": Buyer, "keep": Keep, "idle": Idle, "trader": Trader, "trig": Triggered, "obuy": OptBuyer, "obuy2": OptBuyer2, "oquery": OptQuery}
+    class TrigCtor(Strategy):
+        """registers its trigger in its CONSTRUCTOR (the strategy object travels to a worker with the trigger in it)"""
+
+        def __init__(self, tag):
+            super().__init__()
+            self.tag = tag
+            self.triggers.append(PeriodTrigger(timedelta(minutes=2), self.work, trigger_immediately=True))
+
+        def work(self, snapshot):
+            m = list(self.broker.markets.values())[0]
+            m.add_liquidity_by_tick(199200 + 100 * snapshot.row_id, 200900, Decimal("0.1"), Decimal(200))
+
+        def finalize(self):
+            _dump(self)
+
+    class Greeks(Keep):
+        """asks the pool helper for the greeks of a range the price has fallen out of (a pure query), then behaves like Keep"""
+
+        def on_bar(self, snapshot):
+            from demeter.uniswap.helper import get_greeks
+
+            if snapshot.row_id == 0:
+                self.greeks = [get_greeks(Decimal("0.9"), Decimal(1), Decimal("1.2")), get_greeks(Decimal("1.1"), Decimal(1), Decimal("1.2"))]
+            super().on_bar(snapshot)
+
+    return {"trigctor": TrigCtor, "greeks": Greeks, "pricewriter": PriceWriter, "ocap": OptCapBuyer, "lender": Lender, "riskeditor": RiskEditor, "sig2": Signal, "sig3": Signal3, "buyer": Buyer, "keep": Keep, "idle": Idle, "trader": Trader, "trig": Triggered, "obuy": OptBuyer, "obuy2": OptBuyer2, "oquery": OptQuery}
 
 
 STRATEGY_CLASSES = None
@@ -352,7 +377,7 @@ def make_setup(mix):
     if mix == "quote-funded":  # the configuration funds only one of the pool's two tokens
         assets = {uni.USDC: Decimal(20000)}
     cfg = StrategyConfig(assets=assets, markets=markets)
-    return cfg, BacktestData(data, prices), BacktestConfig()
+    return cfg, BacktestData(data, prices), BacktestConfig(interval="2min") if mix == "one-pool(2min)" else BacktestConfig()
 
 
 # ---- controlled pool ------------------------------------------------------------------------------------------------------------------
@@ -555,6 +580,8 @@ def compare(part, case, res, kinds, mix):
 
 def judge_selection(part, mix, kinds, thorough):
     n = len(kinds)
+    for k in dict.fromkeys(kinds):
+        solo(mix, k)  # the reference runs come FIRST, before anything another strategy does in this process could reach them
     # in-process path
     res, err, _, _ = managed(mix, kinds, 1, None)
     case = {"mix": mix, "strategies": list(kinds), "threads": 1, "path": "in-process", "schedule": None}
@@ -656,6 +683,13 @@ def main(run: Run):
         jobs.append((run.seed, "options", s, run.thorough))
     for s in [("lender",), ("riskeditor",), ("riskeditor", "lender"), ("lender", "riskeditor", "lender")]:
         jobs.append((run.seed, "lending", s, run.thorough))
+    # the manager's own configuration (a two-minute bar interval), a strategy whose trigger is registered in its constructor, a helper query that must leave no trace
+    for s in [("keep",), ("keep", "trader"), ("trader", "idle", "keep")]:
+        jobs.append((run.seed, "one-pool(2min)", s, run.thorough))
+    for s in [("trigctor",), ("trigctor", "keep"), ("idle", "trigctor")]:
+        jobs.append((run.seed, "one-pool", s, run.thorough))
+    for s in [("greeks", "trader"), ("greeks", "keep", "trig"), ("greeks",)]:
+        jobs.append((run.seed, "one-pool", s, run.thorough))
     for mix in mixes:
         for s in sels:
             if mix == "two-pools" and not run.thorough and len(s) == 3 and s[0] not in ("keep", "trig"):
